@@ -93,10 +93,7 @@ func hostOfChain(sim *chain.Sim, cur []held, salt uint64) *host {
 	h := newHost(sim.CS, sim.K, salt)
 	for _, x := range cur {
 		if v, ok := x.e.v.(*types.V2FileContractElement); ok && !x.spent {
-			if _, have := h.proofParents[v.V2FileContract.ProofHeight]; !have {
-				c := v.Copy()
-				h.proofParents[v.V2FileContract.ProofHeight] = &c
-			}
+			h.addProofParent(v)
 		}
 	}
 	return h
@@ -267,20 +264,27 @@ func probeState(c *vlib.Ctx, st *stats, cov *chainCov, sim *chain.Sim, tk *track
 		cov.maxLive = len(cur)
 	}
 	cov.mu.Unlock()
-	v2left := v2budget
+	v2left := map[kind]int{}
+	for k := kSC; k < nKinds; k++ {
+		v2left[k] = v2budget / 2
+	}
 	ask := func(p probe) {
 		p.ctx = ctx
 		oo := jo
-		// ValidateV2Transaction costs two signatures and two verifications: asked within a budget per state,
-		// genuine elements and their field mutations first
+		// the doors that need signed transactions cost signatures and verifications: asked within a budget per
+		// state and element kind, genuine elements and their field mutations first
 		if oo.v2txn {
-			if v2left <= 0 && !(p.mut == "none" || p.mut == "flip") {
+			if v2left[p.e.k] <= 0 && !(p.mut == "none" || p.mut == "flip") {
 				oo.v2txn = false
 			} else {
-				v2left--
+				v2left[p.e.k]--
 			}
 		}
 		judge(c, st, h, p, oo)
+	}
+	// parents created earlier in the block under validation (InBlock.tla)
+	if jo.v2txn {
+		inBlock(c, st, h, ibCases, cur, rng, ctx)
 	}
 	targets := cur
 	if sampleLive > 0 && len(cur) > sampleLive {
